@@ -1,10 +1,47 @@
 (* C02 — parsed attributes are exactly the field values the definition prescribes.
-   What is proved so far is the per-field contract and the structural invariants; the whole-definition statement
-   (ordered attribute list = decoding of consecutive fields) is decided by correspondence + an independent spec
-   decoder on every definition, see the check. *)
+   The walk is instrumented with a ghost trace (one record per field read: base name, index path, offset, width,
+   kind, value).  Whole-definition statements: C02_trace (the records tile the payload from offset 0 in order,
+   each value is the decoding of exactly its bytes, the attribute dictionary is the records applied in order)
+   and C02_shape (the records are the definition unfolded, group members carrying their repeat index path).
+   Per-field contracts below them.  Which definition is selected (variants) is C16/C17's subject and is tied by
+   correspondence. *)
 From PyUbx Require Import Base Bytes PyFloat Types Strs Walk Consts Tables Msg WfDef.
-From PyUbx Require Import Msg_lemmas Codec_lemmas Bits_lemmas Field_lemmas.
+From PyUbx Require Import Msg_lemmas Codec_lemmas Bits_lemmas Field_lemmas Trace_lemmas Shape_lemmas.
 Open Scope Z_scope.
+
+(* every definition list, every payload, every repeat count, both bitfield views, every budget: the fields read
+   are consecutive byte ranges from offset 0 in definition order (chain), each recorded value is the decoding
+   (little-endian / two's complement / IEEE-754 / scaled+rounded / raw bitfield) of exactly its own bytes (good),
+   the payload is untouched, and the attributes are the records applied in order: plain fields set their suffixed
+   name, _HP fields are merged into their base, bitfields set one attribute per non-reserved flag (apply_all) *)
+Theorem C02_trace : forall cls id mode bf bud ds pay s',
+  is_cfgval cls id mode = false ->
+  walk_list atttype readonly_names cfgdb storsize scalround cls id mode bf None bud ds []
+    {| w_off := O; w_pay := pay; w_attrs := []; w_trace := [] |} = Ok s' ->
+  chain O (rev (w_trace s')) (w_off s') /\ Forall (good scalround pay) (w_trace s') /\ w_pay s' = pay /\
+  apply_all scalround (rev (w_trace s')) [] = Ok (w_attrs s').
+Proof.
+  intros cls id mode bf bud ds pay s' H.
+  exact (walk_from_zero atttype readonly_names cfgdb storsize scalround cls id mode bf bud H ds pay s').
+Qed.
+Print Assumptions C02_trace.
+
+(* the records are the definition unfolded: one per member in order, groups repeated with index paths
+   [1], [2], ... appended (nested groups: [1;1], [1;2], ...), a fixed-count group exactly its count *)
+Theorem C02_shape : forall cls id mode bf kw bud ds idx s s',
+  walk_list atttype readonly_names cfgdb storsize scalround cls id mode bf kw bud ds idx s = Ok s' ->
+  exists l, w_trace s' = (l ++ w_trace s)%list /\ shape_l bf (is_cfgval cls id mode) idx ds (rev l).
+Proof. exact (walk_list_shape_all atttype readonly_names cfgdb storsize scalround). Qed.
+Print Assumptions C02_shape.
+
+(* non-vacuity: NAV-style definition with a counted group of two, parsed from 7 bytes *)
+Example C02_trace_example :
+  exists s', walk_list atttype readonly_names cfgdb storsize scalround [1%N] [2%N] 0%N true None 10
+    [ASingle "n" (T lU (Some 1%nat)); AGroup "g" (RNamed "n") [ASingle "a" (T lI (Some 2%nat)); ASingle "b" (T lU (Some 1%nat))]] []
+    {| w_off := O; w_pay := [2; 255; 255; 7; 1; 0; 9]%N; w_attrs := []; w_trace := [] |} = Ok s' /\
+    w_attrs s' = [("n", PInt 2); ("a_01", PInt (-1)); ("b_01", PInt 7); ("a_02", PInt 1); ("b_02", PInt 9)]%string /\
+    w_off s' = 7%nat.
+Proof. eexists. split; [vm_compute; reflexivity|]. split; reflexivity. Qed.
 
 (* parsing never alters the payload it reads (every definition, every repeat count) *)
 Theorem C02_payload_unchanged : forall cls id mode bf bud ds idx s s',
@@ -20,7 +57,9 @@ Theorem C02_int_field : forall n l w idx s,
   mem_s (n ++ suffix idx)%string readonly_names = false ->
   single atttype readonly_names scalround None n (T l (Some w)) None idx s =
   Ok {| w_off := (w_off s + w)%nat; w_pay := w_pay s;
-        w_attrs := upsert (n ++ suffix idx) (PInt (int_dec (l =? lI)%N (slice (w_pay s) (w_off s) w))) (w_attrs s) |}.
+        w_attrs := upsert (n ++ suffix idx) (PInt (int_dec (l =? lI)%N (slice (w_pay s) (w_off s) w))) (w_attrs s);
+        w_trace := {| fr_base := n; fr_idx := idx; fr_off := w_off s; fr_size := w; fr_kind := FField (T l (Some w)) None;
+                      fr_val := PInt (int_dec (l =? lI)%N (slice (w_pay s) (w_off s) w)) |} :: w_trace s |}.
 Proof. exact single_parse_int. Qed.
 Print Assumptions C02_int_field.
 
